@@ -16,6 +16,11 @@ pub enum Distractor {
     NotRowOmimOnly,
     NotRowOrphaExisting,
     NotRowOrphaOnly,
+    /// for every positive disease row a NOT-qualified twin (same disease, same term, another reference), all of
+    /// them before the positive rows: two sources that disagree; the rows that are not NOT still count
+    NotRowTwinsFirst,
+    /// the same twins after all positive rows
+    NotRowTwinsLast,
     /// `#` comment lines at the top of phenotype.hpoa
     HpoaComments,
     /// the column header line `database_id\tdisease_name...`
@@ -327,6 +332,20 @@ pub fn render(f: &Facts, o: &JaxOpts) -> Rendered {
     }
     if o.has(&Distractor::NotRowOrphaOnly) {
         rows.insert(0, row("ORPHA", 777_002, "Negated orpha only", "NOT", some_term));
+    }
+    if o.has(&Distractor::NotRowTwinsFirst) || o.has(&Distractor::NotRowTwinsLast) {
+        let twins: Vec<String> = dorder
+            .iter()
+            .map(|&i| {
+                let a = dis[i];
+                row(if a.kind == Kind::Omim { "OMIM" } else { "ORPHA" }, a.id, &a.name, "NOT", a.term.unwrap())
+            })
+            .collect();
+        if o.has(&Distractor::NotRowTwinsFirst) {
+            rows.splice(0..0, twins);
+        } else {
+            rows.extend(twins);
+        }
     }
     if o.has(&Distractor::DecipherRow) {
         rows.insert(rows.len() / 2, row("DECIPHER", 16, "Leri-Weill dyschondrostosis (LWD) - SHOX deletion", "", some_term));
